@@ -204,6 +204,12 @@ func cmdCheck(args []string) int {
 	if *tier == "thorough" {
 		timeout = 120 * time.Second
 	}
+	if v := os.Getenv("VERIF_TIMEOUT"); v != "" {
+		// development aid on a loaded machine; the registered commands do not set it
+		if n, err := strconv.Atoi(v); err == nil && n > 0 {
+			timeout = time.Duration(n) * time.Second
+		}
+	}
 	scratch, err := os.MkdirTemp("", "govc-"+*prop+"-")
 	if err != nil {
 		fmt.Fprintln(os.Stderr, "infrastructure error:", err)
@@ -396,6 +402,9 @@ func cmdCheck(args []string) int {
 			mu.Unlock()
 			if *verbose {
 				fmt.Fprintf(os.Stderr, "%-8s %-7s %6.2fs %s#%s\n", j.o.Result, j.o.Solver, j.o.Seconds, shortKey(j.o.Func), j.o.Name)
+				if j.o.Result != "sat" && j.o.Result != "unsat" && os.Getenv("VERIF_DEBUG") != "" {
+					fmt.Fprintf(os.Stderr, "    per-solver: %v %v\n    %s\n", r.both, r.perSolver, truncStr(strings.ReplaceAll(j.o.Raw, "\n", " | "), 600))
+				}
 			}
 		}(idx, j)
 	}
